@@ -59,7 +59,8 @@ def step (line : String) : String :=
   | "minmax" :: rest => runMinmax (parseKV rest)
   | "pred" :: rest => runPred (parseKV rest)
   | "detqr" :: rest => runDetQR (parseKV rest)
-  | "hstep" :: rest => runHstep (parseKV rest)
+  | "hstep" :: rest => C16H.runHstep (parseKV rest)
+  | "hspec" :: rest => C16H.runHspec (parseKV rest)
   | "layout" :: rest => runLayout (parseKV rest)
   | "mapops" :: rest => runMapops (parseKV rest)
   | "qr" :: rest => runQR (parseKV rest)
